@@ -228,7 +228,7 @@ func (r *Report) finish(evidencePath string, explanation string) int {
 		unitCounts[k] = len(v)
 	}
 	cov := map[string]any{
-		"explanation":         explanation,
+		"explanation":         explanation + " Rules applied on this run: " + strings.Join(rules, ", ") + ".",
 		"evaluations":         len(r.Obs),
 		"distinct_nontrivial": len(distinct),
 		"rule":                "one obligation per (rule, function, construct) instance found in /repo's current source; distinct = distinct construct keys, instance-floor bookkeeping excluded",
